@@ -52,7 +52,7 @@ func main() {
 		"post-history of Delete/GC/re-push/reopen(dir|fs.FS|tar|system tar) on oci); after every step Predecessors(n) for every DAG node n is compared as a set (and for duplicates) with the generator's inverse edges restricted to stored nodes; " +
 		"distinct = hash(DAG shape, kind, order class, history ops); non-trivial = some node has ≥2 stored predecessors and some parent was pushed before one of its children")
 	r.Assume("one media type per digest in this check (media-type twins belong to C01)")
-	worker.Run(r, worker.Opts{Phase: "hist", Total: r.N(400, 10000), Batch: 50})
+	worker.Run(r, worker.Opts{Phase: "hist", Total: r.N(3000, 30000), Batch: 100})
 	if bin := os.Getenv("VERIF_RACE_BIN"); bin != "" {
 		raceDir, _ := os.MkdirTemp("", "verif-c07-race-")
 		defer os.RemoveAll(raceDir)
@@ -61,7 +61,7 @@ func main() {
 		n := countRaceReports(raceDir, r)
 		r.Set("race_reports_in_library", n)
 	}
-	r.Finish(r.N(40, 800))
+	r.Finish(r.N(300, 3000))
 }
 
 // countRaceReports counts DATA RACE blocks with a library frame.
